@@ -1,6 +1,6 @@
 (* C10 property theorems.  Only statements closed by [exact]; each followed by Print Assumptions.
    All are about the definitions Harness.v evaluates against the implementation (Model.v, Verbs.v). *)
-From Miller Require Import C10.Model C10.Verbs C10.Spec C10.ProofsGroup C10.ProofsPctl C10.ProofsAcc C10.Proofs C10.ProofsMode C10.ProofsMinMax.
+From Miller Require Import C10.Model C10.Verbs C10.Spec C10.ProofsGroup C10.ProofsPctl C10.ProofsAcc C10.Proofs C10.ProofsMode C10.ProofsMinMax C10.Verbs2 C10.ProofsFrac C10.ProofsStep.
 From Coq Require Import Permutation.
 Open Scope char_scope.
 
@@ -210,3 +210,114 @@ Example C10_nonvacuous :
   /\ run_acc false AMode [B "3"; B "4"; B "4"; B "3"; B "5"] = OText (B "3")
   /\ run_acc false AMin [B "7"; B "-2"; B "11"] = OInt (-2).
 Proof. vm_compute. repeat split; try reflexivity; try discriminate; try lia. Qed.
+
+(* ================================================================== fraction *)
+(* per (group, field) cell, on the functions verb_fraction calls (frac_value, sum_step): the fractions add up to 1
+   (to 100 with -p) whenever the cell's sum is non-zero; with -c the i-th value is the running sum over the total.
+   The tie "the cell sees exactly the group's values of the field" is by correspondence. *)
+Theorem C10_fractions_sum_to_one :
+  forall mult xs S, frac_cell_sum xs = Some S -> ~ (qof S == 0)%Q ->
+    (ovals_sum (frac_cell_run false mult S (I 0) xs) == qof mult)%Q.
+Proof. exact fractions_sum_to_one. Qed.
+Print Assumptions C10_fractions_sum_to_one.
+
+Theorem C10_cumulative_fractions_are_running_sums :
+  forall mult S xs, ~ (qof S == 0)%Q -> forall cum,
+    Forall2 (fun o r => exists q, oval_q o = Some q /\ (q == r / qof S * qof mult)%Q)
+            (frac_cell_run true mult S cum xs) (running (qof cum) (map qof xs)).
+Proof. exact cumulative_fractions_are_running_sums. Qed.
+Print Assumptions C10_cumulative_fractions_are_running_sums.
+
+(* ================================================================== histogram *)
+Theorem C10_histogram_bin_in_range :
+  forall lo hi nbins v, (lo < hi)%Q -> (0 < nbins)%Z -> (lo <= v)%Q -> (v <= hi)%Q ->
+    exists i, hist_bin lo hi nbins v = Some i /\ (0 <= i < nbins)%Z.
+Proof. exact hist_bin_in_range. Qed.
+Print Assumptions C10_histogram_bin_in_range.
+
+Theorem C10_histogram_out_of_range_dropped :
+  forall lo hi nbins v, (lo < hi)%Q -> ((v < lo)%Q \/ (hi < v)%Q) -> hist_bin lo hi nbins v = None.
+Proof. exact hist_bin_outside_dropped. Qed.
+Print Assumptions C10_histogram_out_of_range_dropped.
+
+Theorem C10_histogram_counts_add_up :
+  forall lo hi nbins (vs : list Q), (lo < hi)%Q -> (0 < nbins)%Z ->
+    let step := fun cs v => match hist_bin lo hi nbins v with
+                            | Some i => if (i <? 0)%Z then cs else incr_nth (Z.to_nat i) cs | None => cs end in
+    Zsum (fold_left step vs (repeat 0%Z (Z.to_nat nbins))) = Z.of_nat (List.length (filter (in_hist lo hi) vs)).
+Proof. exact hist_counts_add_up. Qed.
+Print Assumptions C10_histogram_counts_add_up.
+
+(* ================================================================== step (per (group, field) cell run, step_cell) *)
+(* counter / rsum / rprod: the operation folded over all contributing (present, non-empty, numeric) values so far *)
+Theorem C10_step_running_value :
+  forall sp name f pre v x, is_running sp = true -> numeric_or_void pre -> is_void v = false -> numof v = Some x ->
+    exists o q, step_cell sp name f (stst0 sp) (pre ++ [Some v]) = step_cell sp name f (stst0 sp) pre ++ [Some o]
+      /\ oval_q o = Some q /\ (q == fold_left (run_op sp) (contributing pre ++ [qof x]) (run_init sp))%Q.
+Proof. exact running_stepper_value. Qed.
+Print Assumptions C10_step_running_value.
+
+Theorem C10_step_running_empty_value :
+  forall sp name f pre v, is_running sp = true -> is_void v = true ->
+    step_cell sp name f (stst0 sp) (pre ++ [Some v]) = step_cell sp name f (stst0 sp) pre ++ [Some (OText [])].
+Proof. exact running_stepper_void. Qed.
+Print Assumptions C10_step_running_empty_value.
+
+Theorem C10_step_shift_lag_value :
+  forall n name f pre v, (1 <= n)%nat ->
+    step_cell (SShiftLag n) name f (stst0 (SShiftLag n)) (pre ++ [Some v])
+    = step_cell (SShiftLag n) name f (stst0 (SShiftLag n)) pre ++ [Some (OText (match nback n pre with Some p => p | None => [] end))].
+Proof. exact shift_lag_value. Qed.
+Print Assumptions C10_step_shift_lag_value.
+
+Theorem C10_step_delta_value :
+  forall n name f pre v, (1 <= n)%nat -> is_void v = false ->
+    step_cell (SDelta n) name f (stst0 (SDelta n)) (pre ++ [Some v])
+    = step_cell (SDelta n) name f (stst0 (SDelta n)) pre
+      ++ [Some (match nback_num (SDelta n) n pre with Some p => bin_num (fun x y => Some (nv_minus x y)) v p | None => OInt 0 end)].
+Proof. exact delta_value. Qed.
+Print Assumptions C10_step_delta_value.
+
+Theorem C10_step_ratio_value :
+  forall n name f pre v, (1 <= n)%nat -> is_void v = false ->
+    step_cell (SRatio n) name f (stst0 (SRatio n)) (pre ++ [Some v])
+    = step_cell (SRatio n) name f (stst0 (SRatio n)) pre
+      ++ [Some (match nback_num (SRatio n) n pre with Some p => bin_num nv_div v p | None => OInt 1 end)].
+Proof. exact ratio_value. Qed.
+Print Assumptions C10_step_ratio_value.
+
+Theorem C10_step_delta_is_the_difference :
+  forall v p x y, numof v = Some x -> numof p = Some y ->
+    exists q, oval_q (bin_num (fun a b => Some (nv_minus a b)) v p) = Some q /\ (q == qof x - qof y)%Q.
+Proof. exact delta_is_the_difference. Qed.
+Print Assumptions C10_step_delta_is_the_difference.
+
+Theorem C10_step_from_first_value :
+  forall name f v0 pre v,
+    exists rest, step_cell SFromFirst name f (stst0 SFromFirst) (Some v0 :: pre ++ [Some v])
+               = Some (OInt 0) :: rest ++ [Some (bin_num (fun a b => Some (nv_minus a b)) v v0)].
+Proof. exact (fun name f v0 pre v => from_first_value name f v0 pre v (fun _ _ => Logic.I)). Qed.
+Print Assumptions C10_step_from_first_value.
+
+(* every record is emitted exactly once: FALSE for shift_lead_n with n >= 2 on a group with fewer than n records *)
+Theorem C10_step_emits_every_record_refuted :
+  exists sps fs gs rs, (List.length (verb_step sps fs gs rs) < List.length rs)%nat.
+Proof. exact shift_lead_drops_records. Qed.
+Print Assumptions C10_step_emits_every_record_refuted.
+
+Example C10_nonvacuous_verbs :
+  verb_fraction [B "x"] [] false false [[(B "x", B "1")]; [(B "x", B "3")]]
+  = [[(B "x", OText (B "1")); (B "x_fraction", OFlt (Qmake 1 4))]; [(B "x", OText (B "3")); (B "x_fraction", OFlt (Qmake 3 4))]]
+  /\ frac_cell_sum [I 1; I 3] = Some (I 4)
+  /\ hist_bin 0 10 5 (Qmake 7 2) = Some 1%Z /\ hist_bin 0 10 5 10 = Some 4%Z /\ hist_bin 0 10 5 11 = None
+  /\ step_cell SRsum (B "rsum") (B "x") (stst0 SRsum) [Some (B "2"); None; Some []; Some (B "5")]
+     = [Some (OInt 2); None; Some (OText []); Some (OInt 7)]
+  /\ step_cell (SDelta 2) (B "delta_2") (B "x") (stst0 (SDelta 2)) [Some (B "2"); Some (B "3"); Some (B "7")]
+     = [Some (OInt 0); Some (OInt 0); Some (OInt 5)]
+  /\ is_running SRprod = true.
+Proof. vm_compute. repeat split; reflexivity. Qed.
+
+Example C10_nonvacuous_step_domain : numeric_or_void [Some (B "2"); None; Some []].
+Proof.
+  intros v [H|[H|[H|[]]]]; [injection H as <-; right; eexists; vm_compute; reflexivity|discriminate H|injection H as <-; left; reflexivity].
+Qed.
